@@ -21,7 +21,7 @@ import (
 func init() {
 	register(&Driver{
 		ID:        "C11",
-		Technique: "exhaustive enumeration of struct shapes: every list of <=3 (thorough <=4) fields over 12 field kinds x every placement of each field into anonymous untagged by-value embedded structs of depth <=3 (reflect.StructOf), plus hand-written shapes with unexported embedded struct types and non-recursing decoys; one real start per shape; metamorphic oracle against the flat struct, recording tag processor, bit-exact frame condition",
+		Technique: "exhaustive enumeration of struct shapes: every list of <=3 (thorough <=4) fields over 12 field kinds (+7 look-alike foreign tags for lists of <= 2) x every placement of each field into anonymous untagged by-value embedded structs of depth <=3 (reflect.StructOf), plus hand-written shapes with unexported embedded struct types and non-recursing decoys; one real start per shape; metamorphic oracle against the flat struct, recording tag processor, bit-exact frame condition",
 		Rule:      "field kinds = {wire by type, wire by name, func, value literal, value placeholder, prop, prefix, logger, custom tag with arguments, untagged, unexported+tagged, foreign-tagged}; placements = {top, E1, E1.E2, E1.E2.E3, E4} per field; static shapes = unexported embedded type at depth 1, below an exported embed, above an exported embed; decoys = tagged anonymous struct, anonymous pointer-to-struct, named struct field; non-trivial = at least one field placed inside an embedded struct",
 		Assumptions: []string{
 			"reflect.StructOf cannot build unexported embedded fields; those shapes are hand-written Go types",
@@ -67,6 +67,17 @@ var c11Kinds = []c11Kind{
 	{"untagged", c11TStr, ``, false, false},
 	{"unexp", c11TStr, `value:"lit"`, true, false},
 	{"foreign", c11TStr, `json:"x"`, false, false},
+}
+
+// foreign tag keys that merely end in (or start with) a recognised key: still unrecognised
+var c11Lookalikes = []c11Kind{
+	{"defaultvalue", c11TStr, `defaultvalue:"lit"`, false, false},
+	{"hardwire", c11TIface, `hardwire:"prov"`, false, false},
+	{"envprop", c11TStr, `envprop:"k"`, false, false},
+	{"myprefix", c11TStr, `myprefix:"k"`, false, false},
+	{"notmytag", c11TStr, `notmytag:"v,arg=a b"`, false, false},
+	{"values", c11TStr, `values:"lit"`, false, false},
+	{"wired", c11TIface, `wired:"prov"`, false, false},
 }
 
 // c11Rec records what a user-supplied tag processor receives for `mytag`.
@@ -257,10 +268,14 @@ func c11Shapes(c *core.Ctx) {
 						break
 					}
 				}
+				nk := len(c11Kinds)
+				if L <= 2 {
+					nk += len(c11Lookalikes) // look-alike foreign tags: lists of <= 2 fields
+				}
 				k := 0
 				for k < L {
 					idx[k]++
-					if idx[k] < len(c11Kinds) {
+					if idx[k] < nk {
 						break
 					}
 					idx[k] = 0
@@ -277,7 +292,11 @@ func c11Shapes(c *core.Ctx) {
 		fs := make([]c11Kind, len(cs.Kinds))
 		var names []string
 		for i, k := range cs.Kinds {
-			fs[i] = c11Kinds[k]
+			if k < len(c11Kinds) {
+				fs[i] = c11Kinds[k]
+			} else {
+				fs[i] = c11Lookalikes[k-len(c11Kinds)]
+			}
 			names = append(names, fs[i].name)
 		}
 		fk := fmt.Sprint(cs.Kinds)
@@ -316,6 +335,11 @@ func c11Shapes(c *core.Ctx) {
 			if got.vals[n] != flat.vals[n] {
 				c.Outcome("value-differs")
 				c.Report(key, "embedding-changes-value", fmt.Sprintf("%s: field %s (%s) holds %q, declared directly it holds %q", desc, n, f.name, got.vals[n], flat.vals[n]), cs)
+				return
+			}
+			if !f.tagged && f.typ == c11TIface && got.vals[n] != "same-as-provider=false" {
+				c.Outcome("frame-violated")
+				c.Report(key, "frame", fmt.Sprintf("%s: %s field %s (unrecognised tag) was injected", desc, f.name, n), cs)
 				return
 			}
 			if !f.tagged && f.typ == c11TStr && got.vals[n] != "SENTINEL" {
